@@ -3,6 +3,7 @@ import GrinVerif.Lemmas.SegNoPanic
 import GrinVerif.Lemmas.SegExtra
 import GrinVerif.Lemmas.SegComplete
 import GrinVerif.Lemmas.SegPeaks
+import GrinVerif.Lemmas.SegLeafless
 /-! # C16 — state segments are sound; state sync never finalises other roots
 
 Property theorems only (helper lemmas live in `Lemmas/Seg*.lean`; model `Model/Seg.lean`).
@@ -77,6 +78,91 @@ theorem segment_validate_with_no_panic (hf : HashFn α H) [DecidableEq H] (s : S
 theorem segment_first_unpruned_parent_no_panic (hf : HashFn α H) (s : Segment α H) (size : Nat)
     (bm : Option (Nat → Bool)) : s.firstUnprunedParent hf size bm ≠ .panic :=
   firstUnprunedParent_no_panic hf s size bm
+
+/-! ## Segments without leaves need a bitmap
+
+`Segment::root` takes the `leaf_data.is_empty()`-style route (root `None`, then
+`first_unpruned_parent` looks for a hash of the segment or of a parent) only for a prunable MMR,
+i.e. with `bitmap = Some(..)`.  With `bitmap = None` (kernel segments, bitmap segments) every leaf
+of the range is required, so a segment that carries no leaves — whatever hashes and proof it
+carries — is answered with an error by all four stateless checks; nothing panics and nothing is
+accepted. -/
+
+/-- **pruned_segment_requires_bitmap.**  What the real code answers for a segment without leaves
+when `bitmap = None`, for *every* identifier (any `height : u8`, `idx : u64`), MMR size, hash list
+and proof:
+* `root` is never `Ok(None)` and none of `root` / `first_unpruned_parent` / `validate` /
+  `validate_with` panics (the `bitmap.unwrap()` of `first_unpruned_parent` is not reached);
+* if the position range starts with a leaf position `p` (it does for every range computed without
+  wrap-around: `first = insertion_to_pmmr_index(leaf_offset)`; see the `FullId` corollary), all four
+  answer exactly `MissingLeaf(p)` — before any hash of the segment or of the proof is looked at;
+* if the position range is empty, `root` (hence all four) answers `NonExistent`.
+In particular `validate` never returns `Ok` for such a segment with a non-empty range. -/
+theorem pruned_segment_requires_bitmap (hf : HashFn α H) [DecidableEq H] (s : Segment α H) (size : Nat)
+    (mmrRoot : H) (hlp : Nat) (other : H) (left : Bool)
+    (hno : s.leafPos = [] ∨ s.leafData = []) :
+    (s.root hf size none ≠ .ok none ∧ s.root hf size none ≠ .panic ∧
+      s.firstUnprunedParent hf size none ≠ .panic ∧ s.validate hf size none mmrRoot ≠ .panic ∧
+      s.validateWith hf size none mmrRoot hlp other left ≠ .panic) ∧
+    (∀ p ps, s.id.positions size = p :: ps → height p = 0 →
+      s.root hf size none = .err (.missingLeaf p) ∧
+      s.firstUnprunedParent hf size none = .err (.missingLeaf p) ∧
+      s.validate hf size none mmrRoot = .err (.missingLeaf p) ∧
+      s.validateWith hf size none mmrRoot hlp other left = .err (.missingLeaf p)) ∧
+    (s.id.positions size = [] → s.root hf size none = .err .nonExistent ∧
+      s.validate hf size none mmrRoot = .err .nonExistent) := by
+  refine ⟨⟨?_, ?_, firstUnprunedParent_no_panic hf s size none, validate_no_panic hf s size none mmrRoot,
+    validateWith_no_panic hf s size none mmrRoot hlp other left⟩, ?_, ?_⟩
+  · unfold Segment.root; exact rootWith_none_some hf s size _ _ _
+  · unfold Segment.root; exact rootWith_no_panic hf s none size _ _ _
+  · intro p ps hpos hp
+    exact leafless_no_bitmap hf s size mmrRoot hlp other left p ps hno hpos hp
+  · intro he
+    have hr : s.root hf size none = .err .nonExistent := by
+      unfold Segment.root
+      rw [he, peaksIn_of_empty_range s.id size he]
+      exact rootWith_empty_range hf s size none _
+    refine ⟨hr, ?_⟩
+    unfold Segment.validate Segment.firstUnprunedParent
+    rw [hr]; rfl
+
+/-- … for a full segment (`FullId`: the identifier arithmetic is exact) the range starts at the
+leaf position `insertion_to_pmmr_index(idx · 2^height)`, so a full segment without leaves is
+answered `MissingLeaf` of exactly that position: a completely pruned kernel segment "one hash and a
+proof" can never validate. -/
+theorem pruned_full_segment_requires_bitmap (hf : HashFn α H) [DecidableEq H] (s : Segment α H)
+    (size : Nat) (mmrRoot : H) (hlp : Nat) (other : H) (left : Bool)
+    (hno : s.leafPos = [] ∨ s.leafData = []) (v : FullId s.id size) :
+    s.root hf size none = .err (.missingLeaf (mmr (s.id.idx * 2 ^ s.id.height))) ∧
+    s.firstUnprunedParent hf size none = .err (.missingLeaf (mmr (s.id.idx * 2 ^ s.id.height))) ∧
+    s.validate hf size none mmrRoot = .err (.missingLeaf (mmr (s.id.idx * 2 ^ s.id.height))) ∧
+    s.validateWith hf size none mmrRoot hlp other left =
+      .err (.missingLeaf (mmr (s.id.idx * 2 ^ s.id.height))) := by
+  obtain ⟨ps, hpos, hp⟩ := full_positions_head s.id size v
+  exact leafless_no_bitmap hf s size mmrRoot hlp other left _ ps hno hpos hp
+
+/-- Non-vacuity: segment (height 1, idx 1) of the 7-leaf MMR (size 11, range 3..=5) carrying one
+hash at its last position and one proof hash, no leaves: `FullId` holds, and without a bitmap
+`validate` answers `MissingLeaf(3)`.  (With a bitmap that marks nothing in the range the same shape
+is accepted when hash and proof are genuine: shown on the real code by the `leafless` run.) -/
+example :
+    let hsum : HashFn Nat Nat := ⟨fun _ x => x, fun _ l r => l + r⟩
+    let s : Segment Nat Nat :=
+      { id := ⟨1, 1⟩, hashPos := [5], hashes := [42], leafPos := [], leafData := [], proof := [7] }
+    s.validate hsum 11 none 49 = .err (.missingLeaf 3) := by
+  intro hsum s
+  have h : nLeaves 11 = 7 := by
+    have := GV.Props.C07.nLeaves_at_leaf_boundary 7
+    have e : mmr 7 = 11 := by simp [mmr, popcount]
+    rw [e] at this; exact this
+  have v : FullId s.id 11 :=
+    ⟨by show 1 < 64; omega, by rw [h]; show (1 + 1) * 2 ^ 1 ≤ 7; omega, by rw [h]; omega⟩
+  have e3 : mmr (s.id.idx * 2 ^ s.id.height) = 3 := by
+    show mmr (1 * 2 ^ 1) = 3
+    simp [mmr, popcount]
+  have := (pruned_full_segment_requires_bitmap hsum s 11 49 0 0 false (Or.inl rfl) v).2.2.1
+  rw [e3] at this
+  exact this
 
 /-! ## Soundness: what validation reads is determined by the root -/
 
